@@ -17,10 +17,15 @@ META = {
             'and the SQL statement stream around it are compared; distinct = '
             '(operation, caller class, policy variant)',
     'floors': {'denied_probes': 100, 'allowed_probes': 50,
+               'keystone_pipeline_probes': 100,
                'override_probes': 500, 'unauthenticated_probes': 30},
-    'assumptions': ['noauth2 + PlacementKeystoneContext pipeline (the code '
-                    'placement owns); keystonemiddleware token validation '
-                    'cannot run offline', 'SQLite backend'],
+    'assumptions': ['authorisation decided on the noauth2 + '
+                    'PlacementKeystoneContext pipeline (the code placement '
+                    'owns); the real keystonemiddleware auth_token pipeline '
+                    'is exercised with an unreachable identity service for '
+                    'the no-credentials / unvalidated-token probes only '
+                    '(token validation cannot run offline)',
+                    'SQLite backend'],
     'shard_timeout': 1800,
 }
 
@@ -61,8 +66,21 @@ def expected_default(op, caller):
     return 'deny'
 
 
+KEYSTONE_CONF = '''[keystone_authtoken]
+www_authenticate_uri = http://127.0.0.1:1/identity
+auth_url = http://127.0.0.1:1/identity
+auth_type = password
+username = placement
+password = x
+project_name = service
+user_domain_id = default
+project_domain_id = default
+'''
+
+
 def plan(tier, seed, scale):
-    shards = [{'part': 'default', 'seed': seed, 'hashseed': 0}]
+    shards = [{'part': 'default', 'seed': seed, 'hashseed': 0},
+              {'part': 'keystone', 'seed': seed, 'hashseed': 0}]
     for i in range(6):
         shards.append({'part': 'override', 'slice': i, 'of': 6,
                        'seed': seed, 'hashseed': 0})
@@ -112,6 +130,8 @@ def run_shard(spec, res):
     from placement import policies as ppolicies
     from placement import policy as ppolicy
 
+    if spec['part'] == 'keystone':
+        return keystone_shard(spec, res)
     svc = Service()
     watch = SqlWatch(svc.app.engine)
     try:
@@ -302,5 +322,64 @@ def run_shard(spec, res):
             res.sample({'rule': mine[0] if mine else None,
                         'variants': ['@ with role-less caller',
                                      '! with admin']})
+    finally:
+        svc.close()
+
+
+def keystone_shard(spec, res):
+    """The real keystone auth_token pipeline (auth_strategy=keystone) with an
+    unreachable identity service: without credentials every route but / must
+    answer 401 before anything else happens; with a token that cannot be
+    validated nothing may succeed."""
+    from pv import use_repo
+    use_repo()
+    from pv.histrun import Service
+    from placement import handler as phandler
+    svc = Service(auth_strategy='keystone', config_text=KEYSTONE_CONF)
+    try:
+        d0 = svc.dump()
+        for route, targets in sorted(phandler.ROUTE_DECLARATIONS.items()):
+            if route == '':
+                continue
+            path = world.concrete_path(route) if route != '/' else '/'
+            for m in METHODS:
+                for token in (None, 'not-a-valid-token'):
+                    req = Req(m, path, '1.39',
+                              {} if m in ('PUT', 'POST', 'PATCH') else None,
+                              token=token)
+                    resp = svc.client.send(req)
+                    res.count('requests')
+                    res.count('keystone_pipeline_probes')
+                    res.seen('%s %s' % (m, route), 'keystone',
+                             'no-token' if token is None else 'bad-token')
+                    wit = {'request': req.brief(), 'response': resp.brief()}
+                    if route == '/':
+                        if m == 'GET' and resp.status != 200:
+                            res.violation(
+                                'C16|version-document-needs-credentials|'
+                                'keystone', 'GET /: %d' % resp.status, wit)
+                        continue
+                    if token is None:
+                        res.count('unauthenticated_probes')
+                        if resp.status != 401:
+                            res.violation(
+                                'C16|no-credentials-not-401|%s %s|keystone'
+                                % (m, route),
+                                '%s %s without credentials under the '
+                                'keystone pipeline: %d' % (m, path,
+                                                           resp.status), wit)
+                    elif 200 <= resp.status < 300:
+                        res.violation(
+                            'C16|unvalidated-token-got-success|%s %s' % (
+                                m, route),
+                            '%s %s with a token that cannot be validated: '
+                            '%d' % (m, path, resp.status), wit)
+        after = svc.dump()
+        if dbdump.diff(d0, after, with_aux=True):
+            res.violation('C16|unauthenticated-request-changed-state|'
+                          'keystone', 'state changed', {})
+        res.sample({'pipeline': 'keystonemiddleware auth_token, identity '
+                    'service unreachable', 'expect': '401 without a token, '
+                    'never 2xx with an unvalidated one'})
     finally:
         svc.close()
